@@ -12,6 +12,23 @@ use std::time::{Duration, Instant};
 
 static FLAGS: [AtomicU32; 16] = [const { AtomicU32::new(0) }; 16];
 static SINK: AtomicU64 = AtomicU64::new(0);
+static GATE_LEN: AtomicU32 = AtomicU32::new(0);
+static GATE_PARTIES: AtomicU32 = AtomicU32::new(0);
+static GATE_ARRIVED: AtomicU32 = AtomicU32::new(0);
+
+/// verif-hooks callback: only relaxed atomics and sleeps (no happens-before edges are added)
+fn hook(s: u32, arg: u64) {
+    if s == nucleo::verif::site::BOXCAR_CAS && arg as u32 == GATE_LEN.load(Ordering::Relaxed) && arg != 0 {
+        let parties = GATE_PARTIES.load(Ordering::Relaxed);
+        let me = GATE_ARRIVED.fetch_add(1, Ordering::Relaxed) + 1;
+        if me <= parties {
+            let t0 = Instant::now();
+            while GATE_ARRIVED.load(Ordering::Relaxed) < parties && t0.elapsed() < Duration::from_millis(400) {
+                std::thread::sleep(Duration::from_micros(200));
+            }
+        }
+    }
+}
 
 fn set_flag(k: u8) {
     FLAGS[k as usize % 16].store(1, Ordering::Relaxed);
@@ -181,6 +198,11 @@ fn run_ops(ops: &[SOp], t: usize, target: &Target, mut nuc: Option<&mut Nucleo<I
             SOp::SetFlag { k } => set_flag(*k),
             SOp::WaitFlag { k } => wait_flag(*k),
             SOp::SleepMs { ms } => std::thread::sleep(Duration::from_millis(*ms as u64 % 20)),
+            SOp::GateCas { len, parties } => {
+                GATE_ARRIVED.store(0, Ordering::Relaxed);
+                GATE_PARTIES.store(*parties as u32, Ordering::Relaxed);
+                GATE_LEN.store(*len, Ordering::Relaxed);
+            }
         }
     }
     let _ = target.count();
@@ -192,6 +214,7 @@ fn main() {
     let v = v.get("case").cloned().unwrap_or(v);
     let sc: Script = serde_json::from_value(v).expect("script");
     let cols = sc.columns.max(1) as u32;
+    nucleo::verif::set_hook(Some(hook));
     if !sc.nucleo {
         let vec = Arc::new(RawVec::<Item>::with_capacity(sc.capacity, cols));
         let mut hs = vec![];
